@@ -387,3 +387,137 @@ def alias_agree(ctx, world, modes=("vjp", "jvp")):
             e2, a2 = diff[0]
             ctx.fail("A5.alias", inst, f"alias:{mode}:{'='.join(names)}[{k}]", f"{ref_e.loc} / {e2.loc}", f"{ref_e.prim_id} and {e2.prim_id} are the same NumPy function but their {mode.upper()} rules differ:  {ref_e.prim_id}: {ref_nf.text()[:120]}   {e2.prim_id}: {a2.text()[:120]}", "the point where the two formulas differ (x = 0 for abs / absolute: 0 versus nan)")
     ctx.floor("A5.alias alias groups with rules", n, 2)
+
+
+_MASK_FN = {
+    "equal": "eq", "not_equal": "ne", "less": "lt", "greater": "lt", "less_equal": "le", "greater_equal": "le", "isclose": "isclose",
+    "sign": "sign", "signbit": "signbit", "isnan": "isnan", "isfinite": "isfinite", "isinf": "isinf", "iscomplex": "iscomplex", "isreal": "isreal", "heaviside": "heaviside",
+}
+_MASK_CMP = {"Eq": "eq", "NotEq": "ne", "Lt": "lt", "Gt": "lt", "LtE": "le", "GtE": "le"}
+_MASK_NEG = {"eq": "ne", "ne": "eq", "lt": "le", "le": "lt"}
+_STRUCT_ATTR = {"shape", "ndim", "dtype", "size"}
+_STRUCT_FN = {"shape", "ndim", "size", "result_type", "iscomplexobj", "isscalar"}
+_STRUCT_REPO = ("builtins.len", "builtins.isinstance", "builtins.type", "autograd.core.vspace", "autograd.extend.vspace")
+
+
+def _mask_signatures(world, result, diff_roles):
+    """the selection predicates a rule applies to the primal VALUES (its differentiable operands and its answer) in
+    value position: (predicate class, operand roles).  Tests in `if` conditions, assertions and anything computed from
+    shapes / dtypes are control flow or plumbing, not part of the linear map, and are left out."""
+    from ..terms import children
+    from ..tutil import expand
+
+    ev = world.ev
+
+    def structural(t):
+        if t.op == "attr" and t.name in _STRUCT_ATTR:
+            return True
+        if t.op == "call":
+            r, _ = resolve_callee(ev, t)
+            if r is not None:
+                if is_numpy_callable(r):
+                    return base_name(r) in _STRUCT_FN
+                return r.qual in _STRUCT_REPO or r.qual.endswith(".metadata")
+        return False
+
+    def roles(t, acc, seen):
+        if t is None or id(t) in seen or structural(t):
+            return
+        seen.add(id(t))
+        if t.op == "sym" and t.get("role") == "ans":
+            acc.add("ans")
+        if t.op == "arg" and t.get("index") is not None:
+            acc.add(t.index)
+        for c in children(t):
+            roles(c, acc, seen)
+
+    out = []
+    seen = set()
+
+    def collect(t, neg):
+        if t is None or (id(t), neg) in seen:
+            return
+        seen.add((id(t), neg))
+        if t.op == "if":
+            collect(t.then, False)
+            collect(t.other, False)
+            return
+        if t.op in ("raise", "assert", "when") or structural(t):
+            return
+        kind, ops, flip = None, [], False
+        if t.op == "cmp" and t.opname in _MASK_CMP:
+            kind, ops = _MASK_CMP[t.opname], [t.l, t.r]
+        elif t.op == "un" and t.opname in ("Invert", "Not"):
+            collect(t.x, not neg)
+            return
+        elif t.op == "bin" and t.opname in ("BitOr", "BitAnd"):
+            collect(t.l, neg)
+            collect(t.r, neg)
+            return
+        elif t.op == "call":
+            r, _ = resolve_callee(ev, t)
+            if r is not None and is_numpy_callable(r):
+                bn = base_name(r)
+                if bn in ("logical_not", "invert", "bitwise_not") and t.args:
+                    collect(t.args[0], not neg)
+                    return
+                if bn in ("logical_or", "logical_and", "bitwise_or", "bitwise_and") and len(t.args) >= 2:
+                    # De Morgan: the negation of a conjunction / disjunction of selections negates each of them
+                    for a_ in t.args[:2]:
+                        collect(a_, neg)
+                    return
+                if bn in _MASK_FN:
+                    kind, ops = _MASK_FN[bn], list(t.args)
+        if kind is not None:
+            acc = set()
+            for o in ops:
+                roles(o, acc, set())
+            acc &= diff_roles
+            if acc:
+                if neg and kind in _MASK_NEG:
+                    kind = _MASK_NEG[kind]
+                # !=, < and <= are one class: on operands that are ordered by construction (ans >= a_min) they are
+                # interchangeable spellings; == (exact selection) and isclose (tolerance) are not
+                kind = "ineq" if kind in ("ne", "lt", "le") else kind
+                out.append((kind, tuple(sorted(map(str, acc)))))
+        for c in children(t):
+            collect(c, False)
+
+    collect(expand(ev, result, ()), False)
+    return sorted(set(out))
+
+
+def mask_agree(ctx, world):
+    """A5.mask - where a derivative is defined through a selection on the primal values (which entries attain the
+    maximum, which side of a bound, the sign), the VJP and the JVP of that argument must select with the same
+    predicate on the same operands: `x == ans` in one table and `isclose(x, ans)` (or `x >= ans`) in the other are two
+    different linear maps wherever the predicates disagree, so <g, JVP v> != <VJP g, v> there."""
+    ctx.describe("A5.mask", "for every (primitive, argument) with both rules, the set of selection predicates applied in value position to the primal values - comparison class (exact ==, an inequality, isclose, sign, isfinite, ...) and which differentiable operands / answer they compare - is the same in the VJP and in the JVP")
+    by = {}
+    for e in world.table.entries:
+        if e.spec == "maker" and world.in_numpy_scope(e) and is_numpy_callable(e.prim) and isinstance(e.argnum, int) and e.api in ("defvjp", "defjvp"):
+            by.setdefault(e.prim_id, {})[(e.mode, e.argnum)] = e
+    n = 0
+    for pid, d in sorted(by.items()):
+        dp = {a for (_, a) in d}
+        for a in sorted(dp):
+            ev_, ej = d.get(("vjp", a)), d.get(("jvp", a))
+            if ev_ is None or ej is None:
+                continue
+            irv, irj = world.ir(ev_), world.ir(ej)
+            if irv is None or irj is None or not irv.ok or not irj.ok:
+                continue
+            roles_ = set(dp) | {"ans"}
+            sv, sj = _mask_signatures(world, irv.result, roles_), _mask_signatures(world, irj.result, roles_)
+            if not sv and not sj:
+                continue
+            n += 1
+            inst = f"mask:{pid}[{a}]"
+            loc = f"{ev_.loc} / {ej.loc}"
+            if sv == sj:
+                ctx.ob("A5.mask", inst, True, loc, sample=str(sv))
+            else:
+                only_v = [s for s in sv if s not in sj]
+                only_j = [s for s in sj if s not in sv]
+                ctx.fail("A5.mask", inst, inst, loc, f"the VJP selects with {only_v or 'no predicate'} where the JVP selects with {only_j or 'no predicate'} (predicate class, operands compared)", "a point where the two predicates differ (values within isclose tolerance but not equal, a tie, a value on the bound): the two modes then describe different linear maps")
+    ctx.floor("A5.mask (primitive, argument) pairs with value selections", n, 10)
